@@ -76,6 +76,8 @@ def handle : List String → List String → Option String
       let (calls, res, extras) ← parseOutcome impl
       let bad := judge l calls res extras
       some (if bad.isEmpty then "ok" else "bad " ++ " | ".intercalate bad)
+  | ["op-shared", _, calls], impl =>
+    some (if impl = [s!"returned={((calls.splitOn "=").getD 1 "")}"] then "ok" else "bad C04 every call on a client shared by several goroutines returns | C08 concurrent use of one client")
   | ["w26", n], impl => n.toNat?.map fun n => Driver.expect (if wiegand26 n then "1" else "0") impl
   | _, _ => none
 
